@@ -427,6 +427,14 @@ class Conv:
         return self.cmd(com_quit(), seq0)
 
     def build(self):
+        # TLC's cost per event is linear in the buffered bytes: keep fine-grained chunkings to
+        # small streams (large streams still get header cuts etc. through explicit schedules)
+        total = sum(len(m["b"]) for m in self.msgs)
+        if total > 3000 and self.enc == "flat":
+            k = 200 if total < 100000 else 2000
+            self.chunks = [x if (x == 0 or x >= k) else x * k for x in self.chunks][:200]
+            if 0 < self.then < k:
+                self.then = self.then * k
         sc = {"id": self.sid, "kind": "conn", "enc": self.enc,
               "shim": {"kind": self.shim, "auth": self.auth, "tls": self.tls, "client_cert": self.server_client_cert,
                        "programs": self.programs, "prepares": self.prepares},
